@@ -140,6 +140,8 @@ pub struct ProgG {
     pub funcs: Vec<FuncG>,
     pub exts: Vec<ExtG>,
     pub debug_section: bool,
+    /// relocatable objects: which kernel-module marker sections exist (bit 0 `.modinfo`, bit 1 `.gnu.linkonce.this_module`)
+    pub markers: u8,
     /// read-only data placed behind the code (strings), writable data
     pub rodata: Vec<u8>,
     pub data: Vec<u8>,
@@ -597,13 +599,15 @@ pub fn emit_elf(p: &ProgG, l: &Layout, rng: &mut Rng) -> Vec<u8> {
     secs.push(Sec { name: ".data", ty: 1, flags: 0x3, addr: vdata, off: data_off, size: data.len() as u64, align: 16 });
     let mut extra: Vec<u8> = Vec::new();
     let extra_off = data_off + data.len() as u64;
-    if is_rel {
+    if is_rel && p.markers & 1 != 0 {
         let modinfo = b"license=GPL\0name=verif\0";
         secs.push(Sec { name: ".modinfo", ty: 1, flags: 0x2, addr: 0, off: extra_off + extra.len() as u64, size: modinfo.len() as u64, align: 1 });
         extra.extend_from_slice(modinfo);
         while extra.len() % 8 != 0 {
             extra.push(0);
         }
+    }
+    if is_rel && p.markers & 2 != 0 {
         secs.push(Sec { name: ".gnu.linkonce.this_module", ty: 1, flags: 0x3, addr: 0, off: extra_off + extra.len() as u64, size: 64, align: 8 });
         extra.extend_from_slice(&[0u8; 64]);
     }
@@ -721,7 +725,7 @@ impl<'a> Gen<'a> {
         Gen {
             rng,
             uniq: 0x1000,
-            prog: ProgG { kind, funcs: vec![], exts: vec![], debug_section: false, rodata: vec![], data: vec![] },
+            prog: ProgG { kind, funcs: vec![], exts: vec![], debug_section: false, markers: 3, rodata: vec![], data: vec![] },
             features: vec![],
         }
     }
@@ -1127,7 +1131,25 @@ impl<'a> Gen<'a> {
         }
         let project = emit_project(&self.prog, &l);
         let elf = emit_elf(&self.prog, &l, self.rng);
-        Input { project: project.to_string(), elf, is_lkm: self.prog.kind == Kind::Lkm, features: self.features }
+        let mut sections = vec![".text".to_string(), ".data".to_string()];
+        if self.prog.kind == Kind::Lkm && self.prog.markers & 1 != 0 {
+            sections.push(".modinfo".into());
+        }
+        if self.prog.kind == Kind::Lkm && self.prog.markers & 2 != 0 {
+            sections.push(".gnu.linkonce.this_module".into());
+        }
+        if self.prog.debug_section {
+            sections.push(".debug_info".into());
+        }
+        sections.push(".shstrtab".into());
+        let etype = match self.prog.kind { Kind::Exec => "exec", Kind::Pie => "dyn", Kind::Lkm => "rel" };
+        Input {
+            project: project.to_string(),
+            elf,
+            is_lkm: self.prog.kind == Kind::Lkm && self.prog.markers == 3,
+            elf_facts: json!({"type": etype, "sections": sections}),
+            features: self.features,
+        }
     }
 }
 
@@ -1137,12 +1159,14 @@ pub struct Input {
     pub project: String,
     pub elf: Vec<u8>,
     pub is_lkm: bool,
+    /// what the generator put into the ELF file: {"type": "rel"|"exec"|"dyn", "sections": [names]}
+    pub elf_facts: Value,
     pub features: Vec<String>,
 }
 
 impl Input {
     pub fn to_json(&self) -> Value {
-        json!({"proj": self.project, "elf": hex(&self.elf), "lkm": self.is_lkm})
+        json!({"proj": self.project, "elf": hex(&self.elf), "lkm": self.is_lkm, "elf_facts": self.elf_facts})
     }
     pub fn from_json(v: &Value) -> Input {
         let h = v["elf"].as_str().unwrap_or("");
@@ -1151,6 +1175,7 @@ impl Input {
             project: v["proj"].as_str().unwrap_or("").to_string(),
             elf,
             is_lkm: v["lkm"].as_bool().unwrap_or(false),
+            elf_facts: v.get("elf_facts").cloned().unwrap_or(Value::Null),
             features: vec![],
         }
     }
@@ -1634,9 +1659,10 @@ pub fn warning_names(stdout: &str) -> Option<Vec<String>> {
 
 /// A program whose `main` runs the given gadgets one after the other (each in its own helper
 /// function when `split` is set), plus `extra_funcs` random functions.
-pub fn gen_gadget_program(rng: &mut Rng, kind: Kind, gadgets: &[&str], split: bool, extra_funcs: usize, kernel_names: bool) -> Input {
+pub fn gen_gadget_program(rng: &mut Rng, kind: Kind, gadgets: &[&str], split: bool, extra_funcs: usize, kernel_names: bool, markers: u8) -> Input {
     let lkm = kernel_names;
     let mut g = Gen::new(rng, kind);
+    g.prog.markers = markers;
     let mut funcs: Vec<FuncG> = Vec::new();
     // function 0 = main; helper functions follow
     let n_helpers = if split { gadgets.len() } else { 0 };
@@ -1948,9 +1974,10 @@ pub fn gen_random_function(g: &mut Gen, idx: usize, nfuncs: usize, lkm: bool) ->
 fn fix_shared(_p: &mut ProgG) {}
 
 /// Random multi-function program (C21/C23 exploration).
-pub fn gen_random_program(rng: &mut Rng, kind: Kind, shared_blocks: bool) -> Input {
+pub fn gen_random_program(rng: &mut Rng, kind: Kind, shared_blocks: bool, markers: u8) -> Input {
     let lkm = kind == Kind::Lkm;
     let mut g = Gen::new(rng, kind);
+    g.prog.markers = markers;
     let nfuncs = 1 + g.rng.below(6) as usize;
     let mut funcs = Vec::new();
     for k in 0..nfuncs {
@@ -2034,13 +2061,15 @@ pub struct Recipe {
     /// use the kernel-module configuration (and kernel function names in the gadgets)
     pub cfg_lkm: bool,
     pub shared: bool,
+    /// relocatable objects: kernel-module marker sections present (bit 0 `.modinfo`, bit 1 `.gnu.linkonce.this_module`)
+    pub markers: u8,
 }
 
 impl Recipe {
     pub fn json(&self) -> Value {
         json!({"g": self.g, "state": self.state,
                "kind": match self.kind { Kind::Exec => "exec", Kind::Pie => "pie", Kind::Lkm => "lkm" },
-               "gadgets": self.gadgets, "split": self.split, "extra": self.extra, "cfg_lkm": self.cfg_lkm, "shared": self.shared})
+               "gadgets": self.gadgets, "split": self.split, "extra": self.extra, "cfg_lkm": self.cfg_lkm, "shared": self.shared, "markers": self.markers})
     }
     pub fn from_json(v: &Value) -> Recipe {
         Recipe {
@@ -2056,18 +2085,31 @@ impl Recipe {
             extra: v["extra"].as_u64().unwrap_or(0) as usize,
             cfg_lkm: v["cfg_lkm"].as_bool().unwrap_or(false),
             shared: v["shared"].as_bool().unwrap_or(false),
+            markers: v["markers"].as_u64().unwrap_or(3) as u8,
         }
     }
     pub fn build(&self) -> Input {
         let mut rng = Rng(self.state);
         if self.g == "random" {
-            gen_random_program(&mut rng, self.kind, self.shared)
+            gen_random_program(&mut rng, self.kind, self.shared, self.markers)
         } else if self.g == "special" {
             // the name of the hand-written program is carried in `gadgets[0]`
-            gen_special(&mut rng, self.kind, self.gadgets.first().map(|s| s.as_str()).unwrap_or(""))
+            gen_special(&mut rng, self.kind, self.gadgets.first().map(|s| s.as_str()).unwrap_or(""), self.markers)
         } else {
             let gs: Vec<&str> = self.gadgets.iter().map(|s| s.as_str()).collect();
-            gen_gadget_program(&mut rng, self.kind, &gs, self.split, self.extra, self.cfg_lkm)
+            gen_gadget_program(&mut rng, self.kind, &gs, self.split, self.extra, self.cfg_lkm, self.markers)
+        }
+    }
+    /// relocatable objects: both kernel-module marker sections (a kernel module), exactly one, or none
+    pub fn random_markers(rng: &mut Rng, kind: Kind) -> u8 {
+        if kind != Kind::Lkm {
+            return 3;
+        }
+        match rng.below(10) {
+            0..=4 => 3,
+            5 | 6 => 1,
+            7 | 8 => 2,
+            _ => 0,
         }
     }
     pub fn random_kind(rng: &mut Rng) -> Kind {
@@ -2093,11 +2135,12 @@ impl Recipe {
             gadgets.retain(|g| g != drop);
         }
         rng.shuffle(&mut gadgets);
-        let cfg_lkm = kind == Kind::Lkm && rng.chance(1, 2);
-        Recipe { g: "gadget".into(), state: rng.next() | 1, kind, gadgets, split: rng.chance(1, 3), extra: rng.below(3) as usize, cfg_lkm, shared: false }
+        let markers = Recipe::random_markers(rng, kind);
+        let cfg_lkm = kind == Kind::Lkm && markers == 3 && rng.chance(1, 2);
+        Recipe { g: "gadget".into(), state: rng.next() | 1, kind, gadgets, split: rng.chance(1, 3), extra: rng.below(3) as usize, cfg_lkm, shared: false, markers }
     }
     pub fn special(name: &str, kind: Kind, state: u64) -> Recipe {
-        Recipe { g: "special".into(), state: state | 1, kind, gadgets: vec![name.to_string()], split: false, extra: 0, cfg_lkm: false, shared: false }
+        Recipe { g: "special".into(), state: state | 1, kind, gadgets: vec![name.to_string()], split: false, extra: 0, cfg_lkm: false, shared: false, markers: 3 }
     }
     /// directed programs that are part of every run: one per jump kind with a non-existing label
     pub fn always_dangling() -> Vec<Recipe> {
@@ -2153,13 +2196,14 @@ impl Recipe {
     /// overlapping function bodies with reporting instructions in the shared blocks
     pub fn random_shared(rng: &mut Rng) -> Recipe {
         let kind = Recipe::random_kind(rng);
-        Recipe { g: "special".into(), state: rng.next() | 1, kind, gadgets: vec!["shared_null_deref".into()], split: false, extra: 0, cfg_lkm: false, shared: true }
+        Recipe { g: "special".into(), state: rng.next() | 1, kind, gadgets: vec!["shared_null_deref".into()], split: false, extra: 0, cfg_lkm: false, shared: true, markers: 3 }
     }
     /// random multi-function program
     pub fn random_program(rng: &mut Rng) -> Recipe {
         let kind = Recipe::random_kind(rng);
-        let cfg_lkm = kind == Kind::Lkm && rng.chance(1, 2);
-        Recipe { g: "random".into(), state: rng.next() | 1, kind, gadgets: vec![], split: false, extra: 0, cfg_lkm, shared: rng.chance(1, 2) }
+        let markers = Recipe::random_markers(rng, kind);
+        let cfg_lkm = kind == Kind::Lkm && markers == 3 && rng.chance(1, 2);
+        Recipe { g: "random".into(), state: rng.next() | 1, kind, gadgets: vec![], split: false, extra: 0, cfg_lkm, shared: rng.chance(1, 2), markers }
     }
 }
 
@@ -2181,7 +2225,7 @@ pub fn cli_module_names(cli: &Path) -> Vec<String> {
 /// configuration (checks that ignore their parameters) — determined by running the real CLI.
 pub fn names_runnable_with_lkm_config(cli: &Path, root: &Path, all: &[String]) -> Vec<String> {
     let mut rng = Rng::new(7);
-    let inp = gen_gadget_program(&mut rng, Kind::Lkm, &[], false, 0, true);
+    let inp = gen_gadget_program(&mut rng, Kind::Lkm, &[], false, 0, true, 3);
     let files = write_input(root, 999_999, &inp);
     let ok: Vec<bool> = parallel(all, threads(), |_, n| run_cli(cli, &files, &config_path(true), Some(n), 60).exit == Some(0));
     all.iter().zip(ok).filter(|(_, o)| *o).map(|(n, _)| n.clone()).collect()
@@ -2213,8 +2257,9 @@ pub fn panic_message(stderr: &str) -> String {
 }
 
 /// Hand-written programs reproducing specific situations (corpus / regression inputs).
-pub fn gen_special(rng: &mut Rng, kind: Kind, name: &str) -> Input {
+pub fn gen_special(rng: &mut Rng, kind: Kind, name: &str, markers: u8) -> Input {
     let mut g = Gen::new(rng, kind);
+    g.prog.markers = markers;
     let mut funcs: Vec<FuncG> = Vec::new();
     match name {
         // f reads the word at [RSP+0] (the return-address slot) into a register and dereferences it:
